@@ -116,6 +116,12 @@ def C13(c):
         for n in (4, 8):
             conform_ring(c, "pool_atomic_n%d" % n, "pool_atomic", scripts, "Trace_RingAtomic", ring_consts, n=n, origins=(0, U32 - n - 1), bound=3, max_runs=4000, rnd_runs=3000, prefill=True, mode="bag")
             conform_ring(c, "pool_fullsync_n%d" % n, "pool_fullsync", scripts, "Trace_RingFullSync", fs_consts, n=n, origins=(0, U32 - n - 1), bound=3, max_runs=4000, rnd_runs=3000, prefill=True, mode="bag")
+    # pools of payloads with a destructor (the destructor is a scheduling point): a slot being deallocated is nobody else's until its payload
+    # is gone -- a second owner's payload would be destroyed by the first one's destructor (payload registry: use after free / destroyed twice)
+    t_scripts = [("t3", [[AW(1), AW(2), FR, AW(3), FR, FR], [AW(4), FRR, AW(5), FR], [AW(6), AW(7), FRL, FRR]]),
+                 ("t2x", [[AW(1), AW(2), FR, FR, AW(3)], [AW(4), FR, AW(5), AW(6), FRR, FR]])]
+    for kind in ("pool_atomic_tracked", "pool_fullsync_tracked"):
+        conform_l1(c, kind, kind, t_scripts, 2, "bag", max_runs=mr, rnd_runs=rr, consts=lin_consts(2, 3, "bag", prefill=True))
     # specification -> implementation: every transition of the pool's L2 state graph replayed into the real allocators
     cover.cover_ring(c, "pool_atomic_p2", "atomic", [[AL, AL, FR, AL], [AL, FRR, AL]], pool=True)
     cover.cover_ring(c, "pool_fullsync_p2", "fullsync", [[AL, AL, FR, AL], [AL, FRR, AL]], pool=True)
@@ -1045,7 +1051,7 @@ def exec_cases_c11(seed, quick):
         fut = kind in ("fut_fallible", "fut")
         for items in seqs:
             for timeout in ((False, True) if fut else (False,)):
-                for instr in ((7, 0) if quick else (7, 0, 32, 103)):
+                for instr in ((7, 0, 11) if quick else (7, 0, 32, 103, 11, 107)):
                     for limit in ((1, 2, 3) if fut else (1, 2)):
                         if quick and rng.random() < 0.6 and len(items) == 3:
                             continue
@@ -1063,6 +1069,15 @@ def exec_cases_c11(seed, quick):
                 k += 1
                 cases.append({"id": "x%d_%s_sweep_t%d_l%d" % (k, kind, int(timeout), limit), "fam": "exec", "kind": kind, "timeout": timeout, "instr": 7, "limit": limit,
                               "items": ["ok"] * n, "release": list(range(n)), "runtime": "current"})
+    # every instrument setting of the crate against one sequence that contains every kind of item (each executor kind, with and without timeout)
+    for kind in EXEC_KINDS:
+        fut = kind in ("fut_fallible", "fut")
+        for instr in (0, 32, 103, 107, 7, 11):
+            for timeout in ((False, True) if fut else (False,)):
+                items = ["ok", "err", "slow", "ok", "slowerr", "ok"]
+                k += 1
+                cases.append({"id": "x%d_%s_instr%d_t%d" % (k, kind, instr, int(timeout)), "fam": "exec", "kind": kind, "timeout": timeout, "instr": instr, "limit": 2 if fut else 1,
+                              "items": items, "release": [1, 0, 3, 2, 5, 4], "runtime": "current"})
     # the same futures on the multi-thread runtime (outcomes do not depend on timing: items are gated)
     for i, c_ in enumerate(rng.sample(cases, 24 if quick else 200)):
         if c_["kind"] in ("fut_fallible", "fut"):
